@@ -20,7 +20,43 @@ def obligations(tier):
         for sched in (["construct"], ["singles"], ["split"]):
             obs.append(Ob(f"fill/{tf}/n={n}/{sched[0]}", dict(tf=tf, n=n, sched=sched[0]), CFG, weight=n * 10,
                           budget_s=600 if tier == "quick" else 7200, max_paths=300000))
+    # gap filling together with a rolling lifespan window and multi-candle appends: the retained candles must be the
+    # tail of the same contiguous filled series
+    for tf in (["T5"] if tier == "quick" else ["T5", "H1"]):
+        for life_buckets in (1, 3):
+            obs.append(Ob(f"fill+lifespan/{tf}/lifespan={life_buckets}buckets/n={n + 1}", dict(tf=tf, n=n + 1, life=life_buckets), CFG, fn="run_lifespan", weight=n * 20,
+                          budget_s=600 if tier == "quick" else 7200, max_paths=300000))
     return obs
+
+
+def run_lifespan(ctx, P):
+    from datetime import timedelta
+    _, _, Candle, CandleManager, _ = lib()
+    tf, n = P["tf"], P["n"]
+    tfs = tf_secs(tf)
+    life = P["life"] * tfs
+    t0 = 1704067200 - 3 * 86400
+    span = MAXGAP + 3        # room for: an append that overflows the window, then a gap, then two more buckets
+    cs, ts = mk_candles_symtime(ctx, n, lo=t0, hi=t0 + (span + 2) * tfs, span=span * tfs)
+    filled = ref_fill(ctx, ref_resample(ctx, cs, ts, tfs), tfs, span + 1)
+    newest = filled[-1]["ts"]
+    exp = [f for f in filled if bool(f["ts"] >= newest - life)]
+    for chunks in ([1] * n, [2] * (n // 2) + [1] * (n % 2), [1, n - 1], [n - 1, 1]):
+        lab = f"[chunks={'+'.join(map(str, chunks))}]"
+        src = clone(cs)
+        m = CandleManager([], candles_lifespan=timedelta(seconds=life), timeframe=tf, timeframe_fill=True)
+        pos = 0
+        for c in chunks:
+            part = src[pos:pos + c]
+            m.append(part if c > 1 else part[0])
+            pos += c
+        got = lib_view(ctx, m.candles)
+        if chunks == [1] * n:
+            ctx.observe("retained", got)
+        for i in range(1, len(got)):
+            ctx.require(f"lifespan{lab}:contiguous", got[i]["ts"] - got[i - 1]["ts"] == tfs, f"labels {i - 1},{i} not exactly one timeframe apart")
+        if ctx.require(f"lifespan{lab}:count", len(got) == len(exp), f"library keeps {len(got)} candles, window of the filled series holds {len(exp)}"):
+            ctx.equal(f"lifespan{lab}:retained==tail-of-filled-series", got, ref_view(exp))
 
 
 def run(ctx, P):
@@ -61,7 +97,7 @@ def run(ctx, P):
 
 
 META = dict(
-    bounds=dict(quick=f"N=3 candles, timeframes T5/H12/D1 (gaps longer than a day inside), timestamps spanning at most {MAXGAP} buckets (one or two gaps of any size inside), schedules: construction (+1 recollapse), one-by-one, 1 preloaded, every two-chunk split",
+    bounds=dict(quick=f"N=3 candles, timeframes T5/H12/D1 (gaps longer than a day inside), timestamps spanning at most {MAXGAP} buckets (one or two gaps of any size inside), schedules: construction (+1 recollapse), one-by-one, 1 preloaded, every two-chunk split; plus fill under a 1- or 3-bucket lifespan (span <= 8 buckets) with N=4 and single / paired / 1+3 / 3+1 appends",
                 thorough=f"N=4, timeframes S5,T1,T5,T45,H1,H4,H12,D1,D2, span <= {MAXGAP} buckets"),
     stubs=["datetime -> integer seconds", "UTC", "max/min -> If-terms"],
     assumptions=["gaps longer than the span bound are outside the claim (the fill loop runs once per missing bucket)"],
